@@ -82,6 +82,11 @@ CLAIMED = {
   note="Does not decide that a valid line 'means what it says', numeric parsing, timestamp precision arithmetic (the overflow test of SafeCalcTime: seeded change C12-3 is not detected), UTF-8 handling, or exact text/binary round-trip equality.",
   technique="static analysis: wire-length guard analysis with wrap-safety, definition provenance of comparison operands, typed-AST table agreement, enum exhaustiveness, per-iteration marked path exploration",
   ref="§9 C12"),
+ "C09": dict(
+  text="Structural clauses of snapshot/compaction safety: in compactGroup the input files are replaced only on paths where CompactFast/CompactFull returned nil, the only other replacement removes the one unreadable file named by an errBlockRead, and the outputs of a failed installation are removed; the cache snapshot and WAL segments are released only after FileStore.Replace returned nil; the verbatim pass-through decision of all ten generated merge<T> variants tests tombstones and partial reads for the first and for every later block and overlap for every later block; block records taken from the reuse buffer have every struct field re-assigned, and their tombstones come from the reader of the iterator that produced the block; writeNewFiles returns file names only after write() succeeded.",
+  note="Does not decide value-level merge arithmetic (newest wins, excluded ranges), block size/count limits, or sortedness of output blocks.",
+  technique="static analysis: path exploration with outcome facts, attribute-set comparison between first-block test and per-block loop, struct-field coverage of re-initialisation, definition provenance",
+  ref="§9 C09"),
 }
 
 NA = {
